@@ -395,18 +395,16 @@ func (ei *resourceInformer) handleWatchEvent(object interface{}, eventType kemty
 			Objects:     []kemtypes.ObjectAndFilterResult{*objFilterRes},
 		}
 
-		// fix race with enableKubeEventCb.
-		eventCbEnabled := false
+		// Check the flag and save the event in the buffer in one critical section:
+		// enableKubeEventCb replays the buffer only once, an event appended after
+		// the replay would stay in the buffer forever.
 		ei.eventBufLock.Lock()
-		eventCbEnabled = ei.eventCbEnabled
-		ei.eventBufLock.Unlock()
-
-		if eventCbEnabled {
+		if ei.eventCbEnabled {
+			ei.eventBufLock.Unlock()
 			verifhook.Yield("ri.handleWatchEvent.beforePut", ei.Namespace, ei.Name)
 			// Pass event info to callback.
 			ei.putEvent(kubeEvent)
 		} else {
-			ei.eventBufLock.Lock()
 			// Save event in buffer until the callback is enabled.
 			if ei.eventBuf == nil {
 				ei.eventBuf = make([]kemtypes.KubeEvent, 0)
